@@ -39,6 +39,9 @@ enum Op {
     /// connection's bookkeeping; only performed while the connection does not hold the name, so that the next
     /// `request_name` is answered `AlreadyOwner` *by the bus*
     DirectRequest(u8, u8),
+    /// like `Request`, but if the bus queues us the owner releases the name at that very instant: NameAcquired
+    /// arrives right behind the InQueue reply
+    RequestHandover(u8, u8),
 }
 
 #[derive(Clone, Debug, Serialize, Deserialize, PartialEq)]
@@ -69,7 +72,7 @@ impl Scenario for C36Scn {
         "C36"
     }
     fn rule(&self) -> &'static str {
-        "a bus connection (real client handshake + Hello against the fake bus) runs a history of 2..12 operations separated by quiescence (half of the histories drawn blindly, half guided by a simulation of the bus so that operations mostly have an effect): request_name_with_flags (every flag combination), release_name, a RequestName sent to the bus directly while the connection does not hold the name (so that the bus later answers AlreadyOwner itself; the same happens when a name lost to a replacement is inherited back from the queue), in a quarter of the runs one request / release is cancelled at one of its first await points (fault kind cancel_task; the bookkeeping must then follow what the bus was told and answered), and bus-side events: another connection owns / releases / takes over a name (the fake bus then emits the genuine NameAcquired / NameLost it would emit), forged NameAcquired / NameLost from a peer; bus replies carry seeded delays; oracle = name-status model {none, owner, queued}: AlreadyOwner / InQueue are answered locally (no RequestName on the bus) exactly when the model says so, otherwise one RequestName reaches the bus and its reply is reported; release_name is true iff held or queued; forged signals change nothing; non-trivial = the history contains a genuine bus-side ownership change or a forged signal while a name is held or queued"
+        "a bus connection (real client handshake + Hello against the fake bus) runs a history of 2..12 operations separated by quiescence (half of the histories drawn blindly, half guided by a simulation of the bus so that operations mostly have an effect): request_name_with_flags (every flag combination), release_name, a request after which, if it gets queued, the owner releases the name at that very instant (NameAcquired right behind the InQueue reply), a RequestName sent to the bus directly while the connection does not hold the name (so that the bus later answers AlreadyOwner itself; the same happens when a name lost to a replacement is inherited back from the queue), in a quarter of the runs one request / release is cancelled at one of its first await points (fault kind cancel_task; the bookkeeping must then follow what the bus was told and answered), and bus-side events: another connection owns / releases / takes over a name (the fake bus then emits the genuine NameAcquired / NameLost it would emit), forged NameAcquired / NameLost from a peer; bus replies carry seeded delays; oracle = name-status model {none, owner, queued}: AlreadyOwner / InQueue are answered locally (no RequestName on the bus) exactly when the model says so, otherwise one RequestName reaches the bus and its reply is reported; release_name is true iff held or queued; forged signals change nothing; non-trivial = the history contains a genuine bus-side ownership change or a forged signal while a name is held or queued"
     }
     fn runs(&self, tier: Tier) -> u64 {
         match tier {
@@ -95,7 +98,7 @@ impl Scenario for C36Scn {
         for _ in 0..n {
             let name = if guided && rng.chance(3, 4) { 0 } else { rng.below(2) as u8 };
             let op = if !guided {
-                match rng.below(13) {
+                match rng.below(14) {
                     0..=3 => Op::Request(name, rng.below(8) as u8),
                     4..=5 => Op::Release(name),
                     6 => Op::OtherOwns(name, rng.chance(1, 2)),
@@ -104,6 +107,7 @@ impl Scenario for C36Scn {
                     9 => Op::ForgeAcquired(name),
                     10 => Op::ForgeLost(name),
                     11 => Op::DirectRequest(name, rng.below(8) as u8),
+                    12 => Op::RequestHandover(name, rng.below(4) as u8),
                     _ => Op::Request(name, 1),
                 }
             } else {
@@ -131,6 +135,7 @@ impl Scenario for C36Scn {
                     pick -= wt;
                 }
                 match kind {
+                    0 if matches!(bus.owner, Owner::Other(_)) && rng.chance(1, 3) => Op::RequestHandover(name, rng.below(4) as u8),
                     0 => Op::Request(name, flags(rng)),
                     1 => Op::Release(name),
                     2 => Op::OtherOwns(name, rng.chance(1, 2)),
@@ -150,6 +155,17 @@ impl Scenario for C36Scn {
                     *local = match code {
                         1 | 4 => Status::Owner,
                         2 => Status::Queued,
+                        _ => Status::None,
+                    };
+                }
+                Op::RequestHandover(_, f) if *local == Status::None => {
+                    let (code, _) = fakebus::request_name(bus, f as u32);
+                    *local = match code {
+                        1 | 4 => Status::Owner,
+                        2 => {
+                            fakebus::other_releases(bus);
+                            Status::Owner
+                        }
                         _ => Status::None,
                     };
                 }
@@ -252,15 +268,19 @@ impl Scenario for C36Scn {
             let calls_before = bus.lock().unwrap().calls.len();
             let held = |m: &BTreeMap<u8, Status>, n: u8| m.get(&n).copied().unwrap_or(Status::None);
             match *op {
-                Op::Request(..) | Op::Release(..) => {
+                Op::Request(..) | Op::Release(..) | Op::RequestHandover(..) => {
+                    if matches!(op, Op::RequestHandover(..)) {
+                        bus.lock().unwrap().handover_after_queue = true;
+                    }
+                    let handovers_before = bus.lock().unwrap().handovers;
                     let (n, flags) = match *op {
-                        Op::Request(n, f) => (n, f),
+                        Op::Request(n, f) | Op::RequestHandover(n, f) => (n, f),
                         Op::Release(n) => (n, 0),
                         _ => (0, 0),
                     };
                     let res = shared(None::<Res>);
                     let (r2, c2) = (res.clone(), conn.clone());
-                    let is_req = matches!(op, Op::Request(..));
+                    let is_req = matches!(op, Op::Request(..) | Op::RequestHandover(..));
                     let cancel_at = match p.cancel {
                         Some((ci, n)) if ci as usize == i => Some(n),
                         _ => None,
@@ -277,6 +297,10 @@ impl Scenario for C36Scn {
                     w.run();
                     drop(t);
                     let got = res.lock().unwrap().take();
+                    if got.is_some() {
+                        // (a cancelled operation resets the flag itself, after looking at what the bus did)
+                        bus.lock().unwrap().handover_after_queue = false;
+                    }
                     let new_calls: Vec<(String, String, u32, u32)> = bus.lock().unwrap().calls[calls_before..].iter().filter(|c| c.0 == "RequestName" || c.0 == "ReleaseName").cloned().collect();
                     let st = held(&model, n);
                     let name = NAMES[n as usize];
@@ -285,10 +309,13 @@ impl Scenario for C36Scn {
                             // Cancelled midway: the bookkeeping has to follow what the bus was told and answered.
                             w.count("probe.request_or_release_cancelled_midway");
                             after_cancel = true;
+                            let handed_over = bus.lock().unwrap().handovers > handovers_before;
+                            bus.lock().unwrap().handover_after_queue = false;
                             match new_calls.first() {
                                 Some(c) if c.0 == "RequestName" => {
                                     model.insert(n, match c.3 {
                                         1 | 4 => Status::Owner,
+                                        2 if handed_over => Status::Owner,
                                         2 => Status::Queued,
                                         _ => Status::None,
                                     });
@@ -340,7 +367,14 @@ impl Scenario for C36Scn {
                                 if !ok {
                                     verdict = Some(Verdict::fail("reply", "bus-reply-misreported", format!("op {i} {op:?}: bus replied {code}, request_name returned {r:?}")));
                                 }
-                                model.insert(n, ns);
+                                // queued and handed the name at that very instant: the genuine NameAcquired that
+                                // followed the reply makes us the owner
+                                let handed_over = bus.lock().unwrap().handovers > handovers_before;
+                                if handed_over {
+                                    w.count("probe.name_acquired_right_behind_in_queue_reply");
+                                    nontrivial = true;
+                                }
+                                model.insert(n, if handed_over && ns == Status::Queued { Status::Owner } else { ns });
                             }
                         }
                         (Res::Release(r), Status::None) => {
